@@ -19,7 +19,8 @@ const (
 	extWritesArg1                  // decodes into argument 1
 	extMutatesRecv                 // advances the state of its receiver (rand.Rand)
 	extFresh                       // returns a fresh object
-	extIO                          // logging / response writing (allowed only in package main)
+	extIO                          // response writing (allowed only in package main)
+	extLog                         // diagnostic output (log.Print*, fmt.Print*): no effect on any response
 	extForbidden                   // nondeterminism or process control
 	extSync                        // synchronisation primitive
 	extUnclassified
@@ -83,11 +84,16 @@ func classifyExternal(fn *ssa.Function) (extClass, string) {
 		switch name {
 		case "Errorf", "Sprintf", "Sprint", "Sprintln":
 			return extPure, full
+		case "Print", "Printf", "Println":
+			return extLog, full
 		}
 		return extIO, full
 	case "log":
 		if strings.HasPrefix(name, "Fatal") || strings.HasPrefix(name, "Panic") || strings.HasPrefix(name, "(Logger).Fatal") {
 			return extForbidden, full + " terminates the process"
+		}
+		if strings.HasPrefix(name, "Print") || strings.HasPrefix(name, "(Logger).Print") {
+			return extLog, full
 		}
 		return extIO, full
 	case "sync", "sync/atomic":
